@@ -886,7 +886,7 @@ func checkTrimLocality(w *World, r *Report, passes map[*types.Func]bool, helpers
 					return pure(x.Call.Args[0], seen, depth+1)
 				}
 				// kind predicates and other package functions of the token kind / text
-				if g := x.Call.StaticCallee(); g != nil && g.Pkg != nil && g.Pkg.Pkg.Path() == twigPath && !x.Call.IsInvoke() {
+				if g := x.Call.StaticCallee(); g != nil && isTwigFn(g) && !x.Call.IsInvoke() {
 					for _, a := range x.Call.Args {
 						if why := pure(a, seen, depth+1); why != "" {
 							return why
